@@ -76,6 +76,11 @@ def gen(rng, tier):
             sigs2.append(s); meta2.append(m)
     data = L.serialise(sigs2)
     out = [_case(s, b, k, th) for s, b, (k, th) in zip(sigs2, data, meta2)]
+    # the same sections followed by padding (0xFF up to a packet payload, or arbitrary bytes): C08_decode_ser_padded
+    for s, b, (k, th) in list(zip(sigs2, data, meta2))[:: 4 if tier == "quick" else 2]:
+        if th in ("C08_decode_ser", "C08_signal_pts"):
+            pad = bytes([0xFF] * rng.choice([1, 2, 7, max(0, 184 - len(b))])) if rng.random() < 0.7 else L.g_bytes(rng, rng.randrange(1, 12))
+            out.append(_case(s, b + pad, "padded", "C08_decode_ser_padded"))
     # fidelity (C05 territory): truncations, single-bit flips, length-field perturbation of valid sections
     base = [b for b, (k, _) in zip(data, meta2) if k in ("random", "many-descriptors", "insert-lattice")]
     rng.shuffle(base)
@@ -123,8 +128,13 @@ def shrink(c):
     cands = [t for t in cands if L.fits(t)]
     if not cands:
         return
+    orig = vlib.unhx(c.line.split()[1])
+    full = L.py_ser(s)
+    pad = orig[len(full):] if orig[:len(full)] == full else b""
+    if pad:
+        yield _case(s, full, c.kind, c.theorem, c.decides)
     for t, b in zip(cands, L.serialise(cands)):
-        yield _case(t, b, c.kind, c.theorem, c.decides)
+        yield _case(t, b + pad, c.kind, c.theorem, c.decides)
 
 
 LEVEL_TEXT = ("Proof: Properties/C08.v states, over a Gallina model of the repaired decoder (bytes.Buffer semantics, uint8/uint16 "
